@@ -27,6 +27,9 @@ type PlanC04 struct {
 	CliMux   bool         `json:"cli_mux"` // client consumes through an EnvelopeMux (else four stream readers)
 	Faults   FaultSpec    `json:"faults"`
 	Back     FaultSpec    `json:"back"`
+	// LatePC: 1 = the client, 2 = the server first gives up on a command request of its own (50 ms
+	// context); the late response to it then travels like any other envelope and is owed a delivery.
+	LatePC int `json:"late_pc,omitempty"`
 }
 
 func genSenders(t *simrt.Tape, max int, maxSize int) []SenderSpec {
@@ -74,6 +77,7 @@ func genC04(t *simrt.Tape, tier string) interface{} {
 		p.CliDelay = append(p.CliDelay, []int{0, 1, 30, 700, 6000}[t.Draw(5)])
 	}
 	p.CliMux = t.Draw(2) == 0
+	p.LatePC = []int{0, 0, 0, 0, 1, 2}[t.Draw(6)]
 	if p.Conf.Listeners[0] != "inproc" && t.Draw(2) == 0 {
 		p.Faults = benignFaults(t, 2000)
 		p.Back = benignFaults(t, 2000)
@@ -367,10 +371,56 @@ func runC04(w *World, pi interface{}) {
 			}
 		}()
 	}
+	var lateRec, lateReq *sentRec
+	lateDir, lateID := "", ""
+	if p.LatePC == 1 || p.LatePC == 2 {
+		req := &lime.RequestCommand{}
+		req.Method = lime.CommandMethodGet
+		req.SetURIString("/late")
+		pctx, pcancel := context.WithTimeout(context.Background(), 50*time.Millisecond)
+		var perr error
+		if p.LatePC == 1 {
+			req.ID = "c2s.9.0" // the request goes to the server, the answer will come from it
+			w.Bounded("the abandoned ProcessCommand", time.Minute, func() { _, perr = ch.ProcessCommand(pctx, req) })
+		} else {
+			req.ID = "s2c.9.0"
+			w.Bounded("the abandoned ProcessCommand", time.Minute, func() { _, perr = sch.ProcessCommand(pctx, req) })
+		}
+		pcancel()
+		if perr != nil {
+			w.Count("abandoned-command-before-the-traffic")
+			lateDir = map[int]string{1: "s2c", 2: "c2s"}[p.LatePC]
+			lateID = req.ID
+			// the request itself may or may not have been written before its caller gave up
+			lateReq = &sentRec{&Env{ID: req.ID, Kind: KRequest, Req: req, Canon: canonJSON(req)}, perr}
+		}
+	}
 	c2sRecs, c2sDone := runSenders(w, "c2s", p.C2S, ch)
 	s2cRecs, s2cDone := runSenders(w, "s2c", p.S2C, sch)
+	if lateDir != "" {
+		// the late answer to the abandoned command, sent while the other traffic is in flight
+		e := BuildEnvelope(EnvSpec{Kind: KResponse, Seed: 78, Size: 10}, lateID)
+		var snd lime.Sender = sch
+		if lateDir == "c2s" {
+			snd = ch
+		}
+		lctx, lcancel := context.WithTimeout(context.Background(), 20*time.Minute)
+		err := sendVia(lctx, snd, e)
+		lcancel()
+		lateRec = &sentRec{e, err}
+	}
 	for _, fl := range append(c2sDone, s2cDone...) {
 		fl.WaitFor(60 * time.Minute)
+	}
+	if lateRec != nil {
+		// (only now: the sender tasks append to the elements of the record slices until they are done)
+		if lateDir == "c2s" {
+			c2sRecs = append(c2sRecs, []sentRec{*lateRec})
+			s2cRecs = append(s2cRecs, []sentRec{*lateReq})
+		} else {
+			s2cRecs = append(s2cRecs, []sentRec{*lateRec})
+			c2sRecs = append(c2sRecs, []sentRec{*lateReq})
+		}
 	}
 	count := func(recs [][]sentRec) int {
 		n := 0
@@ -384,9 +434,17 @@ func runC04(w *World, pi interface{}) {
 		return n
 	}
 	// drain
-	w.Eventually(10*time.Minute, func() bool {
-		return srvSink.total() >= count(c2sRecs) && cliSink.total() >= count(s2cRecs)
-	})
+	allIn := func(recs [][]sentRec, got *sink) bool {
+		for _, rs := range recs {
+			for _, r := range rs {
+				if r.err == nil && got.dupe[fmt.Sprintf("%d|%s", r.env.Kind, r.env.ID)] == 0 {
+					return false
+				}
+			}
+		}
+		return true
+	}
+	w.Eventually(10*time.Minute, func() bool { return allIn(c2sRecs, srvSink) && allIn(s2cRecs, cliSink) })
 	stayed := ch.Established() && sch.Established()
 	if !stayed {
 		// the premise "while the session stays established" is gone (fault or defect elsewhere)
@@ -420,7 +478,7 @@ func init() {
 		Run:    runC04,
 		MaxSim: 6 * time.Hour,
 		Rule: "plans = (one listener kind of tcp/tcp+tls/ws/wss/in-process, server and client buffer sizes incl. 0, in-process queue size, encryption selector, 0-3 sender tasks per direction each with 1-40 envelopes of all four kinds from the rich generator, " +
-			"handler/consumer delays on both sides, client consuming through an EnvelopeMux or four stream readers, benign link faults: fragmentation, latency, stalls (in a fifth of the runs longer than the 5 s I/O poll, behind a 16-512 byte send buffer), bounded send buffer; handler delays up to 6 s); " +
+			"handler/consumer delays on both sides, client consuming through an EnvelopeMux or four stream readers, benign link faults: fragmentation, latency, stalls (in a fifth of the runs longer than the 5 s I/O poll, behind a 16-512 byte send buffer), bounded send buffer; handler delays up to 6 s; in a third of the runs one side first gives up on a command of its own and the late response to it travels with the other traffic); " +
 			"oracle over the quiescent history: delivered = sent-ok as multisets, exactly once, content equal, per (sender task, kind) order; the session nobody ended is still established at the end; non-trivial = session established and still established at the end; distinct = distinct (plan JSON, event-log hash)",
 	})
 }
